@@ -98,7 +98,7 @@ def fault_scenarios(tie, rng, thorough):
             for mode in ((0, 1, 2) if (thorough or p % 3 == 0) else (p % 3,)):
                 if thorough and mode == 0 and p % 4:
                     continue   # the all-FF death costs ~0.5M events per run; every 4th position
-                sc = S.Scn("FX%d" % n, 1, 2 if mode == 0 else 50, calls + ["mu", "gt"], kind=kind, csd=csd, memseed=5, tseed=77, tmax=(2, 2, 2, 2, 1),
+                sc = S.Scn("FX%d" % n, 1, 2 if mode in (0, 2) else 50, calls + ["mu", "gt"], kind=kind, csd=csd, memseed=5, tseed=77, tmax=(2, 2, 2, 2, 1),
                            faults="dead:%d:%d" % (p, mode), tag="dead"); n += 1
                 scns.append(sc); expect[sc.id] = ("returns", 0)
     return scns, expect
